@@ -157,12 +157,24 @@ func (x *c8Exec) pickMsgRemote(v int) string {
 	return "nope"
 }
 
+func c8ASCII(s string) bool {
+	for i := 0; i < len(s); i++ {
+		if s[i] >= 0x80 {
+			return false
+		}
+	}
+	return true
+}
+
 func (x *c8Exec) flag(v int) string {
 	f := c8Flags[v%len(c8Flags)]
 	if x.knob("k_comma") && v%5 == 0 {
 		f = "x,y"
 	}
-	if x.knob("k_flagcase") {
+	ascii := c8ASCII(f)
+	// letter case is varied for ASCII flags only: IMAP flags are atoms (ASCII), and for other
+	// characters "the same letter in another case" is not defined by the protocol
+	if x.knob("k_flagcase") && ascii {
 		switch (v / 16) % 3 {
 		case 1:
 			f = strings.ToUpper(f)
@@ -1354,7 +1366,7 @@ func init() {
 			if ks := x.m.Msgs[ids[0]].Flags; len(ks) > 0 {
 				k := ks.keys()[a.Arg(2)%len(ks)]
 				flag = ks[k]
-				if x.knob("k_flagcase") && a.Arg(2)%2 == 0 {
+				if x.knob("k_flagcase") && a.Arg(2)%2 == 0 && c8ASCII(flag) {
 					flag = c8SwapCase(flag)
 				}
 			}
